@@ -7,6 +7,7 @@ import base64, json, os, random, re
 import vlib
 
 PID = "C14"
+NCONN = 4   # connections of the one device a run goes through (1 initial + 3 replacement clients)
 DOC = json.load(open(os.path.join(vlib.ROOT, "spec", "doc_commands.json")))
 MT = {k: v for k, v in DOC["message_types"].items() if k != "comment"}
 KA_DOC = DOC["keepalive"]
@@ -649,36 +650,51 @@ def run(tier, seed, replay=None):
         res.violation("harness-build", "Go harness does not build against /repo: " + log[-1500:], dict(kind="build"), False)
         return res.finish()
 
+    rp_in = json.load(open(replay)) if replay else {}
     if replay:
-        cases = json.load(open(replay)).get("cases", [])
+        cases = rp_in.get("cases", [])
     else:
         cases = gen_cases(seed, 15000 if tier == "thorough" else 500)
+        # every command scenario must hold on the 2nd, 3rd ... connection of a device as well: the cases are dealt
+        # (seeded shuffle) onto NCONN-1 successive connections of ONE device; between them the reader drops the connection
+        # and the device's management goroutine replaces the llrp.Client and redials
+        order = list(range(len(cases)))
+        random.Random(seed ^ 0xC14).shuffle(order)
+        for pos, i in enumerate(order):
+            cases[i]["conn"] = pos * (NCONN - 1) // max(1, len(order))
     tabs = {"cfg": Interner(), "ro": Interner(), "as": Interner()}
     consts, model = run_model(cases, tabs)
     if consts is None:
         res.violation("oracle-run", "model evaluation (coqc on generated cases) failed: " + str(model)[-1500:], dict(kind="build"), False)
         return res.finish()
 
-    lines = [json.dumps({"k": "init"})]
-    for c in cases:
+    def hline(c):
         h = {"k": c["k"], "reqs": c["reqs"]}
         if c["k"] == "w":
             h["params"] = [{"n": p["n"], "t": p["t"], "v": p["v"]["h"]} for p in c["params"]]
-        lines.append(json.dumps(h))
-    lines.append(json.dumps({"k": "reconnect"}))
-    # after a reconnect: one config write with its own KeepAliveSpec and one read
-    tail = [{"k": "w", "reqs": [attr_req("ReaderConfig", "Object")], "params": [P("ReaderConfig", "Object", CFG_GOOD[2])]},
-            {"k": "r", "reqs": [attr_req("ReaderCapabilities", "Object")]}]
-    for c in tail:
-        h = {"k": c["k"], "reqs": c["reqs"]}
-        if c["k"] == "w":
-            h["params"] = [{"n": p["n"], "t": p["t"], "v": p["v"]["h"]} for p in c["params"]]
-        lines.append(json.dumps(h))
-    rc, go_lines, glog = vlib.run_harness(exe, "TestVerifC14", "\n".join(lines) + "\n", timeout=900)
+        return json.dumps(h)
+
+    # on the last connection: one config write with its own KeepAliveSpec and one read
+    tail = [{"k": "w", "reqs": [attr_req("ReaderConfig", "Object")], "params": [P("ReaderConfig", "Object", CFG_GOOD[2])], "conn": NCONN - 1},
+            {"k": "r", "reqs": [attr_req("ReaderCapabilities", "Object")], "conn": NCONN - 1}]
+    all_cases = cases + json.loads(json.dumps(tail))
+    # the thorough tier replaces the last drop by a peer that goes SILENT (socket open, nothing sent): the read timeout the
+    # service applies to that (replacement) connection must end it; placed where the following redial has no slow back-off
+    silent_at = NCONN - 1 if (tier == "thorough" and not replay) or rp_in.get("silent") else None
+    script, lines = [("conn", 0)], [json.dumps({"k": "init"})]     # script[i] describes answer line i
+    for cn in range(NCONN):
+        if cn > 0:
+            script.append(("conn", cn))
+            lines.append(json.dumps({"k": "silent" if cn == silent_at else "reconnect"}))
+        for i, c in enumerate(all_cases):
+            if min(c.get("conn", 0), NCONN - 1) == cn:
+                script.append(("case", i))
+                lines.append(hline(c))
+    rc, go_lines, glog = vlib.run_harness(exe, "TestVerifC14", "\n".join(lines) + "\n", timeout=1500)
     if rc != 0 or len(go_lines) != len(lines):
         # a panic outside the calling goroutine kills the binary: the case after the last answer is the witness
-        k = len(go_lines) - 1
-        culprit = cases[k] if 0 <= k < len(cases) else None
+        k = len(go_lines)
+        culprit = all_cases[script[k][1]] if 0 <= k < len(script) and script[k][0] == "case" else None
         if culprit is not None and "panic" in glog:
             res.violation("panic:crash", "the service panicked (outside the calling goroutine) while handling: %s\n%s" % (describe(culprit), glog[-1200:]),
                           dict(kind="correspondence", correspondence="C14/no-panic", cases=[culprit], log=glog[-3000:]))
@@ -687,36 +703,55 @@ def run(tier, seed, replay=None):
                           dict(kind="harness", log=glog[-3000:]), False)
         return res.finish()
     go = [json.loads(l) for l in go_lines]
+    answer_of = {sc[1]: go[i] for i, sc in enumerate(script) if sc[0] == "case"}
+    conn_answers = [(sc[1], go[i], json.loads(lines[i])["k"]) for i, sc in enumerate(script) if sc[0] == "conn"]
 
-    # ---- constants: running code vs. documentation vs. model
-    init = go[0]
-    k = init.get("consts") or {}
+    # ---- per connection (the first one and every replacement client): constants and client options from the running
+    #      code vs. documentation vs. model; the SetReaderConfig the service sends by itself; silent-peer detection
     want = (KA_DOC["interval_ms"], KA_DOC["read_timeout_ms"])
-    if (k.get("keep_alive_interval_ms"), k.get("client_timeout_ms")) != want or \
-            k.get("keep_alive_interval_ms") * k.get("max_missed_kas") != k.get("client_timeout_ms") or \
-            2 * k.get("keep_alive_interval_ms") != k.get("client_timeout_ms"):
-        res.violation("keepalive-constants", "running code: keepAliveInterval=%s ms, maxMissedKAs=%s, llrp.Client timeout=%s ms; documented: "
-                      "KeepAlive every %d ms = half of the %d ms read timeout" % (k.get("keep_alive_interval_ms"), k.get("max_missed_kas"),
-                                                                                   k.get("client_timeout_ms"), want[0], want[1]),
-                      dict(kind="correspondence", correspondence="C14/constants", observed=k, expected=KA_DOC))
-    elif consts != [k["keep_alive_interval_ms"], k["max_missed_kas"], k["client_timeout_ms"]]:
-        res.violation("model-constants", "model constants %s differ from the running code's %s" % (consts, k),
-                      dict(kind="correspondence", correspondence="C14/constants", observed=k, expected=consts), False)
-    # ---- the SetReaderConfig the service sends by itself on (re)connect
-    for label, a in (("connect", go[0]), ("reconnect", go[len(cases) + 1])):
+    k = {}
+    conn_log = []
+    for cn, a, how in conn_answers:
+        k = a.get("consts") or {}
+        label = "first connection" if cn == 0 else "connection %d (replacement client after %s)" % (cn + 1, "a silent peer" if how == "silent" else "a dropped connection")
+        conn_log.append(dict(connection=cn + 1, entered_by=how, consts=k, elapsed_ms=a.get("elapsed_ms"), frames=a["frames"]))
+        rpd = dict(kind="scenario", correspondence="C14/constants-per-connection", connection=cn + 1, observed=k, expected=KA_DOC,
+                   cases=[], silent=(how == "silent"))
+        if (k.get("keep_alive_interval_ms"), k.get("client_timeout_ms")) != want or \
+                (k.get("keep_alive_interval_ms") or 0) * (k.get("max_missed_kas") or 0) != k.get("client_timeout_ms") or \
+                2 * (k.get("keep_alive_interval_ms") or 0) != k.get("client_timeout_ms"):
+            res.violation("keepalive-constants" if cn == 0 else "keepalive-constants:after-reconnect",
+                          "%s: running code has keepAliveInterval=%s ms, maxMissedKAs=%s, read timeout of the device's llrp.Client=%s ms; "
+                          "documented: KeepAlive every %d ms = half of the %d ms read timeout the service applies to the connection" % (
+                              label, k.get("keep_alive_interval_ms"), k.get("max_missed_kas"), k.get("client_timeout_ms"), want[0], want[1]), rpd)
+        elif consts != [k["keep_alive_interval_ms"], k["max_missed_kas"], k["client_timeout_ms"]]:
+            res.violation("model-constants", "model constants %s differ from the running code's %s" % (consts, k),
+                          dict(rpd, expected=consts), False)
         fr = canon_go(a["frames"])
         if fr != [["cfg", 0, [KA_DOC["tlv_body_hex"]], []]] or not a.get("fence"):
-            res.violation("keepalive-on-connect", "after %s the reader received %s (fence ok=%s, %s); expected exactly one SetReaderConfig with "
+            res.violation("keepalive-on-connect", "%s: the reader received %s (fence ok=%s, %s); expected exactly one SetReaderConfig with "
                           "KeepAliveSpec periodic 30000 ms" % (label, fr, a.get("fence"), a.get("note", "")),
-                          dict(kind="correspondence", correspondence="C14/onConnect", observed=a, cases=[]))
+                          dict(kind="scenario", correspondence="C14/onConnect", connection=cn + 1, observed=a, cases=[], silent=(how == "silent")))
+        if how == "silent":
+            # measurement, generous budget: detection must not come before one keep-alive interval has passed (a healthy
+            # reader sends one every 30 s) and must come with the 60 s read timeout (+ redial)
+            el = a.get("elapsed_ms") or 0
+            if "no new connection" in a.get("note", "") or not (want[0] < el <= want[1] + 20000):
+                res.violation("silent-peer-not-detected-by-read-timeout",
+                              "%s: the previous connection's peer went silent (socket open, nothing sent); the device %s; the documented read "
+                              "timeout is %d ms with KeepAlives every %d ms" % (label, "redialled after %d ms" % el if "no new connection" not in
+                                                                                 a.get("note", "") else "had not given up the connection after %d ms" % el,
+                                                                                 want[1], want[0]),
+                              dict(kind="scenario", correspondence="C14/read-timeout-observed", connection=cn, observed=a, cases=[], silent=True))
 
     evals, dist, samples = 0, {}, []
     distinct, nontrivial = set(), set()
     f9 = []
     variant_votes = {"true": 0, "false": 0}
-    all_cases = cases + tail
+    per_conn = {}
     for idx, c in enumerate(all_cases):
-        a = go[1 + idx] if idx < len(cases) else go[len(cases) + 2 + (idx - len(cases))]
+        a = answer_of[idx]
+        per_conn[a.get("conn", 0)] = per_conn.get(a.get("conn", 0), 0) + 1
         evals += 1
         key = json.dumps([c["k"], c["reqs"], [[p["n"], p["t"], p["v"]["h"]] for p in c.get("params", [])]], sort_keys=True)
         e = doc_expect(c)
@@ -787,13 +822,15 @@ def run(tier, seed, replay=None):
         "true" if variant_votes["true"] and not variant_votes["false"] else "false" if variant_votes["false"] and not variant_votes["true"] else "?",
         variant_votes))
     res.coverage.update(
-        evaluations=evals + 2, distinct_nontrivial=len(nontrivial & distinct),
+        evaluations=evals + len(conn_answers), distinct_nontrivial=len(nontrivial & distinct),
         rule="cases = structured enumeration (every read name x type; every action x id; mistyped ids/actions; counts; every test JSON "
              "document x {ReaderConfig, ROSpec, AccessSpec}; every vendor/subtype/base64 variant around a valid CustomMessage) + seeded random "
-             "combinations, + the SetReaderConfig sent on connect and after a forced reconnect; distinct by (kind, requests, parameters); "
+             "combinations, dealt by a seeded shuffle onto 0 successive connections of one device (the reader drops the connection, the device "
+             "replaces its llrp.Client and redials; thorough: the last change-over is a peer gone silent, detected by the read timeout); on every "
+             "connection: the SetReaderConfig sent on connect and the read timeout of the current client; distinct by (kind, requests, parameters); "
              "non-trivial = everything except the four plain single-resource reads that /repo's TestHandleRead already issues",
         samples=samples, input_distribution=dist, traces_validated_against_impl=evals,
-        constants_from_running_code=k, model_constants=consts, model_variant_votes=variant_votes,
+        constants_from_running_code=k, connections=conn_log, cases_per_connection=per_conn, model_constants=consts, model_variant_votes=variant_votes,
         documents=dict(config=len(tabs["cfg"].items), rospec=len(tabs["ro"].items), accessspec=len(tabs["as"].items)),
         trusted_base=res.assumptions)
     return res.finish()
